@@ -347,6 +347,7 @@ class Interp:
         self.depth = depth
         self.rets = []
         self.loop_axes = []  # stack of axis kinds of enclosing loops over lists/ranges
+        self.loop_nodes = []  # the For statements themselves (same depth as loop_axes for `for` loops)
 
     # -- reporting helpers -----------------------------------------------------------------
     def where(self):
@@ -388,7 +389,33 @@ class Interp:
             if self.loop_axes and self.loop_axes[-1] in BLOCK_AXES and isinstance(st.op, ast.Add):
                 res = mark_part(res, False)
                 self.c.fold_sites.append((self.f.key, st, inc))
-                if self.c.track_s and inc.is_numlike and not inc.wild and inc.s == 0 and not inc.is_unk:
+                # an increment that reads loop-carried state (a running mean / count updated in the same loop) is not a plain
+                # per-block partial: the rule below does not apply to such recurrences
+                carried = set()
+                if self.loop_nodes:
+                    written = set()
+                    for x in ast.walk(self.loop_nodes[-1]):
+                        if isinstance(x, (ast.Assign, ast.AugAssign, ast.AnnAssign)):
+                            for t_ in (x.targets if isinstance(x, ast.Assign) else [x.target]):
+                                for n_ in ast.walk(t_):
+                                    if isinstance(n_, ast.Name):
+                                        written.add(n_.id)
+                    for n_ in ast.walk(self.loop_nodes[-1].target):
+                        if isinstance(n_, ast.Name):
+                            written.discard(n_.id)
+                    carried = {n_.id for n_ in ast.walk(st.value) if isinstance(n_, ast.Name)} & written
+                    # names freshly computed from the block in this iteration do not count: only those that also depend on a
+                    # previous iteration, i.e. are read before being written in the body or are augmented in place
+                    first_use = {}
+                    for x in self.loop_nodes[-1].body:
+                        for n_ in ast.walk(x):
+                            if isinstance(n_, ast.Name) and n_.id in written and n_.id not in first_use:
+                                first_use[n_.id] = "aug" if isinstance(x, ast.AugAssign) and any(n2 is n_ for n2 in ast.walk(x.target)) else ("load" if isinstance(n_.ctx, ast.Load) else "store")
+                    state = {k_ for k_, v_ in first_use.items() if v_ in ("load", "aug")}
+                    carried = self._depends_on(st.value, state, self.loop_nodes[-1])
+                if carried:
+                    pass
+                elif self.c.track_s and inc.is_numlike and not inc.wild and inc.s == 0 and not inc.is_unk:
                     self.violation("EXT.D4", st, f"`{src(st)}` sums a per-block value of type {fmt(inc)} over the blocks: it is intensive (an average over the block's samples, S^0), so the sum over blocks is chunk-dependent and not the whole-data quantity; block partials must be sums over samples (S^1)")
                 elif inc.is_numlike and not inc.wild:
                     self.ok("EXT.D4", st, f"block partial {fmt(inc)} is extensive")
@@ -530,17 +557,62 @@ class Interp:
             else:
                 env[k] = self.join(a, b, st, name=k, strict=arm_switch)
 
+    def _depends_on(self, expr, state, loop):
+        """Names of loop-carried `state` that `expr` depends on, following the assignments in the loop body."""
+        defs = {}
+        for x in ast.walk(loop):
+            if isinstance(x, ast.Assign) and len(x.targets) == 1 and isinstance(x.targets[0], ast.Name):
+                defs.setdefault(x.targets[0].id, []).append(x.value)
+        out, seen, todo = set(), set(), [expr]
+        while todo:
+            e = todo.pop()
+            for n_ in ast.walk(e):
+                if isinstance(n_, ast.Name):
+                    if n_.id in state:
+                        out.add(n_.id)
+                    elif n_.id in defs and n_.id not in seen:
+                        seen.add(n_.id)
+                        todo.extend(defs[n_.id])
+        return out
+
     def exec_for(self, st, env):
         it = self.ev(st.iter, env)
         axis, elem = self.iter_elem(it, st.iter, env)
         self.bind_target(st.target, elem, env, st)
         pre = dict(env)
         self.loop_axes.append(axis)
+        self.loop_nodes.append(st)
         for i in range(2):
             self.exec_block(st.body, env)
             env.pop("<dead>", None)
             self.join_env(env, pre, st)
         self.loop_axes.pop()
+        self.loop_nodes.pop()
+        if axis in BLOCK_AXES:
+            # loop-carried state (read before it is written in the body, or updated in place) that is updated from every
+            # block is a fold over the blocks, however the recurrence is written (x += b, x = x + b, t = x + b; x = t)
+            written, first_use = set(), {}
+            for x in ast.walk(st):
+                if isinstance(x, (ast.Assign, ast.AugAssign, ast.AnnAssign)):
+                    for t_ in (x.targets if isinstance(x, ast.Assign) else [x.target]):
+                        for n_ in ast.walk(t_):
+                            if isinstance(n_, ast.Name):
+                                written.add(n_.id)
+            for n_ in ast.walk(st.target):
+                if isinstance(n_, ast.Name):
+                    written.discard(n_.id)
+            for x in st.body:
+                order = []
+                if isinstance(x, (ast.Assign, ast.AnnAssign)) and getattr(x, "value", None) is not None:
+                    order = list(ast.walk(x.value)) + [n_ for t_ in (x.targets if isinstance(x, ast.Assign) else [x.target]) for n_ in ast.walk(t_)]
+                else:
+                    order = list(ast.walk(x))
+                for n_ in order:
+                    if isinstance(n_, ast.Name) and n_.id in written and n_.id not in first_use:
+                        first_use[n_.id] = "load" if (isinstance(n_.ctx, ast.Load) or isinstance(x, ast.AugAssign)) else "store"
+            for k_, v_ in first_use.items():
+                if v_ == "load" and k_ in env and getattr(env[k_], "part", False):
+                    env[k_] = mark_part(env[k_], False)
         self.exec_block(st.orelse, env)
 
     def iter_elem(self, it, node, env):
